@@ -75,7 +75,7 @@ def stage_spec(dst):
 _RE_STATES = re.compile(r"(\d+) states generated, (\d+) distinct states found, (\d+) states left on queue")
 _RE_DEPTH = re.compile(r"The depth of the complete state graph search is (\d+)")
 _RE_HWM = re.compile(r'"HWM", (\d+)')
-_RE_REJECT = re.compile(r'"REJECT", (\d+)')
+_RE_REJECT = re.compile(r'"REJECT", (\d+)(?:, "([^"]*)")?')
 _RE_COV = re.compile(r"^<(\w+) line (\d+), col (\d+) to line (\d+), col (\d+) of module (\w+)>: (\d+):(\d+)", re.M)
 
 
@@ -114,7 +114,9 @@ class TlcResult:
             ls = re.findall(r"^/\\ l = (\d+)", out, re.M)
             if ls:
                 self.trace_l = int(ls[-1])
-        self.rejected_lines = sorted(set(int(x) for x in _RE_REJECT.findall(out)))
+        rj = _RE_REJECT.findall(out)
+        self.rejected_lines = sorted(set(int(x) for x, _ in rj))
+        self.reject_reasons = {int(x): why for x, why in rj if why}     # a trace spec may say why (<<"REJECT", n, "reason">>)
         self.java_error = ("java.lang." in out and "Error" in out) or "Exception in thread" in out
         self.tlc_error = None
         me = re.search(r"^Error: (.*)$", out, re.M)
@@ -283,6 +285,7 @@ def validate_traces(pid, module, cfg, lines, reset_pred, nshards=None, timeout=9
         # stateless trace specs flag a failing line (<<"REJECT", n>>) and go on, so that every line is examined
         for n in r.rejected_lines:
             v.rejections.append({"shard": tf, "line_no": n, "why": "the line does not satisfy the specification",
+                                 "reason": r.reject_reasons.get(n, ""),
                                  "line": sh[n - 1] if 0 < n <= len(sh) else None, "prev": [], "tlc_tail": ""})
         if r.ok() and (r.hwm is None or r.hwm >= len(sh) + 1):
             v.accepted_lines += len(sh) - len(r.rejected_lines)
